@@ -584,7 +584,6 @@ var (
 	vTimeout   = 5 * time.Second
 	vHangs     atomic.Int64
 	vMaxHangs  = int64(3)
-	vHangNotes sync.Map
 )
 
 type opOut struct {
@@ -996,42 +995,67 @@ func genRoot(r *vRng, u *VUniverse, groups []genGroup) map[string]VMod {
 	return root
 }
 
-func genQuery(r *vRng, u *VUniverse, groups []genGroup) string {
+// a query for `get`: aimed at a project of the current build list a little more often than not (so that upgrades and
+// downgrades dominate over adds), with the version chosen above / below the selected one
+func genQuery(r *vRng, u *VUniverse, groups []genGroup, bl map[string]string) string {
 	g := groups[r.below(len(groups))]
+	if len(bl) > 0 && r.chance(11, 20) {
+		var inBL []genGroup
+		for _, x := range groups {
+			if _, ok := bl[x.path]; ok {
+				inBL = append(inBL, x)
+			}
+		}
+		if len(inBL) > 0 {
+			g = inBL[r.below(len(inBL))]
+		}
+	}
 	n := &u.Nodes[vPick(r, g.nodes)]
+	if cur, ok := bl[g.path]; ok && r.chance(3, 4) {
+		// a version other than the selected one, when there is one
+		var others []int
+		for _, i := range g.nodes {
+			if u.Nodes[i].Version != cur {
+				others = append(others, i)
+			}
+		}
+		if len(others) > 0 {
+			n = &u.Nodes[vPick(r, others)]
+		}
+	}
 	pv, _ := refParse(n.Version)
 	full := g.path
-	switch r.below(22) {
-	case 0, 1, 2, 3, 4:
+	switch r.below(40) {
+	case 0, 1, 2, 3, 4, 5, 6, 7, 8, 9, 10, 11:
 		return full + "@" + n.Version
-	case 5:
+	case 12, 13:
 		return full + fmt.Sprintf("@v%d.%d", pv.maj, pv.min)
-	case 6:
-		return full + "@<" + n.Version
-	case 7:
-		return full + "@<=" + n.Version
-	case 8:
-		return full + "@>" + n.Version
-	case 9:
-		return full + "@>=" + n.Version
-	case 10:
-		return full + fmt.Sprintf("@<=v%d.%d", pv.maj, pv.min+1)
-	case 11:
-		return full + fmt.Sprintf("@>v%d.%d", pv.maj, pv.min)
-	case 12:
-		return full + "@latest"
-	case 13:
-		return full
 	case 14, 15:
-		return full + "@patch"
+		return full + "@<" + n.Version
 	case 16, 17:
+		return full + "@<=" + n.Version
+	case 18, 19:
+		return full + "@>" + n.Version
+	case 20, 21:
+		return full + "@>=" + n.Version
+	case 22:
+		return full + fmt.Sprintf("@<=v%d.%d", pv.maj, pv.min+1)
+	case 23:
+		return full + fmt.Sprintf("@>v%d.%d", pv.maj, pv.min)
+	case 24, 25:
+		return full + "@latest"
+	case 26, 27:
+		return full
+	case 28, 29, 30:
+		return full + "@patch"
+	case 31, 32, 33:
 		return full + "@upgrade"
-	case 18:
+	case 34, 35:
 		return full + "@" + vPick(r, []string{"main", "dev", "dev", "nope"})
-	case 19:
+	case 36, 37:
 		// the bare major: parsed as "latest of that major"
 		return project.TrimPathVersion(full) + fmt.Sprintf("@v%d", pv.maj)
-	case 20:
+	case 38:
 		return full + fmt.Sprintf("@v%d.%d.%d", pv.maj, pv.min, pv.pat+7) // no such tag
 	default:
 		return vPick(r, []string{"github.com/v/elsewhere/q@latest", full + "@<", full + "@>=", full + "@v1.x", full + "@>v"})
@@ -1047,11 +1071,12 @@ func genCase(r *vRng, prop string) *VCase {
 		c.Perm = r.next() | 1
 		return c
 	}
+	bl, _ := refGraphOf(&u, nil).buildList(rootMods(c.Root))
 	n := 1 + r.below(4)
 	for i := 0; i < n; i++ {
 		switch x := r.below(10); {
 		case x < 6:
-			c.Ops = append(c.Ops, "get:"+genQuery(r, &u, groups))
+			c.Ops = append(c.Ops, "get:"+genQuery(r, &u, groups, bl))
 		case x < 8:
 			c.Ops = append(c.Ops, "tidy")
 		case x < 9:
@@ -1275,7 +1300,7 @@ func judgeEdit(o *caseOut, c *VCase, s *vSession, g *refGraph, root map[string]V
 
 	before, okB := g.buildList(rootMods(root))
 	after, okA := g.buildList(rootMods(next))
-	landed := "e"
+	landed, stable := "e", "e"
 	if isGet && haveObs {
 		if okA {
 			landed = "0"
@@ -1283,7 +1308,15 @@ func judgeEdit(o *caseOut, c *VCase, s *vSession, g *refGraph, root map[string]V
 				landed = "1"
 			}
 		}
-		ans += "|" + branch + "|" + encMod(resolved) + "|" + landed
+		// does the query resolve to the same version against the new build list?
+		stable = "e"
+		if again, _, ok := observeGet(s.resolver("mem"), next, op[4:]); ok {
+			stable = "0"
+			if again == resolved {
+				stable = "1"
+			}
+		}
+		ans += "|" + branch + "|" + encMod(resolved) + "|" + landed + "|" + stable
 		o.stat("get-branch:" + branch)
 		o.stat("get-query:" + queryKind(op[4:]))
 	} else if isGet {
@@ -1420,6 +1453,8 @@ func judgeEdit(o *caseOut, c *VCase, s *vSession, g *refGraph, root map[string]V
 			key = "get-downgrade-did-not-land"
 		} else if isGet && haveObs && (branch == "add" || branch == "up") && landed != "1" {
 			key = "get-landed-above-resolved"
+		} else if isGet && haveObs && landed == "1" && stable == "0" {
+			key = "get-query-reresolves"
 		}
 		o.violation(c, kindOp+"-not-idempotent", fmt.Sprintf("%s on %s gave %s; repeated on that it gave %s", op, encReqs(root), encReqs(next), a), step, key)
 	}
